@@ -901,7 +901,14 @@ func expectedPairs(thorough bool) []string {
 }
 
 // thoroughPairs: the additional pairs reached by the thorough sizes (64 KiB, 2 MiB +-, 3 MiB) and payloads.
-var thoroughPairs = []string{}
+// Never reached by any compressor: 4>1 (2 MiB do not compress to < 66 bytes of
+// gzip / snappy / lz4 / zstd), lz4/snappy 3>1 and snappy 4>2.
+var thoroughPairs = []string{
+	"gzip:3>3", "gzip:4>3", "gzip:4>4",
+	"snappy:3>3", "snappy:4>3", "snappy:4>4",
+	"lz4:1>1", "lz4:3>3", "lz4:4>2", "lz4:4>3", "lz4:4>4",
+	"zstd:3>3", "zstd:4>3", "zstd:4>4",
+}
 
 func prefixGrid(thorough bool) []caseSpec {
 	var out []caseSpec
